@@ -210,7 +210,7 @@ func (e *engine) sectionPool(pool *kslib.Pool, seed uint64) {
 		}
 		for _, cls := range classes {
 			for _, pt := range variants {
-				e.poolPrim(pool, i, cls, pt, slow, seed)
+				e.safe("pool "+pk.Name+" "+cls+" "+variantName(pt), func() { e.poolPrim(pool, i, cls, pt, slow, seed) })
 			}
 		}
 	}
@@ -358,7 +358,7 @@ func (e *engine) sectionFull(pool *kslib.Pool, seed uint64) {
 				}
 			}
 			e.o.Count("full-prim:" + pk.Type)
-			e.primOps(src, hlib.NewRng(seed, "full/"+api+"/"+pk.Name))
+			e.safe(api, func() { e.primOps(src, hlib.NewRng(seed, "full/"+api+"/"+pk.Name)) })
 		}
 	}
 }
